@@ -145,7 +145,7 @@ class World:
         cells = s.cells
         listers = s.listers
         i = 0
-        get = store.get if isinstance(store, dict) else (lambda k, d=None: d)
+        getinst = Node.get_node_instance
         swept = False
         while True:
             if i >= len(nodes):
@@ -197,8 +197,8 @@ class World:
                       px if px is None or type(px) is str else _fz(px),
                       _items(n.attributes), _items(n.extras))
             try:
-                reg = get(nid) is n
-            except TypeError:
+                reg = getinst(nid) is n      # the public lookup, as the property's observe_at says
+            except Exception:       # noqa: BLE001
                 reg = False
             nsm = n.nsmap
             # prefix order matters to what the exporters print; kept apart from the by-value view
